@@ -83,6 +83,11 @@ func (g *Gen) RandTy(depth int, o TyOpts) *Ty {
 		}
 		t := &Ty{Kind: KContainer}
 		for i := 0; i < k; i++ {
+			if i > 0 && g.Chance(30) {
+				// the same type again (adjacent fields of one user-defined type)
+				t.Fields = append(t.Fields, t.Fields[i-1])
+				continue
+			}
 			t.Fields = append(t.Fields, g.RandTy(depth-1, o))
 		}
 		return t
